@@ -12,6 +12,7 @@ import RavenModel.Model.PartTree
 import RavenModel.Model.Headers
 import RavenModel.Model.Split
 import RavenModel.Model.Blob
+import RavenModel.Model.SearchImpl
 /-! Line protocol: one op per line (`op arg …`, byte-string args hex encoded, `-` = empty, `.` = empty list),
 one canonical line out. Stateful ops (`m.*`) act on the driver's mailbox-machine state. -/
 open Raven
@@ -278,8 +279,44 @@ def needsBox : List String → Option String
     if op ∈ ["m.copy", "m.uidcopy", "m.store", "m.uidstore", "m.expunge", "m.uidexpunge", "m.close"] then some box else none
   | _ => none
 
-def step (st : Mail.Store) (line : String) : Mail.Store × String :=
+structure DState where
+  store : Mail.Store
+  box : List Search.Msg
+
+def ymd (s : String) : Option (Nat × Nat × Nat) :=
+  match s.splitOn "-" with
+  | [y, m, d] => some (y.toNat!, m.toNat!, d.toNat!)
+  | _ => none
+
+/-- SEARCH: `q.reset`, `q.msg seq uid flags(csv hex) idate(y-m-d) sdate(y-m-d|~) raw`, `q.search uidmode criteria` -/
+def opsSearch (st : DState) : List String → Option (DState × String)
+  | ["q.reset"] => some ({ st with box := [] }, "ok")
+  | ["q.msg", seq, uid, flags, idate, sdate, raw] =>
+    let fl := if flags = "." then [] else (flags.splitOn ",").map unhex
+    let m : Search.Msg := { seq := seq.toNat!, uid := uid.toNat!, flags := fl, idate := (ymd idate).getD (0, 0, 0), sdate := ymd sdate,
+                            raw := unhex raw, maxSeq := 0, maxUid := 0 }
+    some ({ st with box := st.box ++ [m] }, "ok")
+  | ["q.search", uidMode, crit] =>
+    let mxS := (st.box.map (·.seq)).foldl max 0
+    let mxU := (st.box.map (·.uid)).foldl max 0
+    let box := st.box.map (fun m => { m with maxSeq := mxS, maxUid := mxU })
+    let shw (a : Search.Answer) : String := match a with
+      | .bad => "bad"
+      | .hits ns => "hits " ++ natList ns
+    -- the code's model, then the specification
+    some (st, shw (Search.search (uidMode = "1") (unhex crit) box) ++ " | " ++ shw (Search.searchSpec (uidMode = "1") (unhex crit) box))
+  | ["q.tokens", crit] => some (st, hexList (Search.tokenise (unhex crit)))
+  | _ => none
+
+def step (st0 : DState) (line : String) : DState × String :=
   let args := (line.trimAscii.toString.splitOn " ").filter (· ≠ "")
+  match opsSearch st0 args with
+  | some r => r
+  | none =>
+  let (s', out) := stepStore st0.store args
+  ({ st0 with store := s' }, out)
+where
+  stepStore (st : Mail.Store) (args : List String) : Mail.Store × String :=
   match needsBox args with
   | some box => if !st.has (unhex box) then (st, "no") else
     match opsMail st args with
@@ -293,7 +330,7 @@ def step (st : Mail.Store) (line : String) : Mail.Store × String :=
     | some r => (st, r)
     | none => (st, "bad-op")
 
-partial def loop (h : IO.FS.Stream) (out : IO.FS.Stream) (st : Mail.Store) : IO Unit := do
+partial def loop (h : IO.FS.Stream) (out : IO.FS.Stream) (st : DState) : IO Unit := do
   let line ← h.getLine
   if line.isEmpty then return ()
   let (st', r) := step st line
@@ -302,4 +339,4 @@ partial def loop (h : IO.FS.Stream) (out : IO.FS.Stream) (st : Mail.Store) : IO 
   loop h out st'
 
 def main : IO Unit := do
-  loop (← IO.getStdin) (← IO.getStdout) (Mail.Store.init 0)
+  loop (← IO.getStdin) (← IO.getStdout) { store := Mail.Store.init 0, box := [] }
